@@ -509,7 +509,7 @@ func vC26FindCase(t *testing.T, r *vRand, out *vOut, root string, idx int) {
 			t.Fatalf("generator produced an invalid name %q", nm)
 		}
 		for j := 0; j < 1+r.Intn(3); j++ {
-			unix, ns := 946684800+int64(r.U64()%1300000000), vC26Ns(r)
+			unix, ns := 1000000000+int64(r.U64()%1200000000), vC26Ns(r) // 10-digit %s only (shorter ones: Round cases)
 			// the recorder: Path{Start: ntp in time.Local}.Encode(PathAddExtension(ReplaceAll(pathFormat, "%path", name)))
 			rp := PathAddExtension(strings.ReplaceAll(f, "%path", nm), format)
 			fp := Path{Start: time.Unix(unix, ns)}.Encode(rp)
